@@ -4,6 +4,7 @@ import (
 	"bufio"
 	"fmt"
 	"io"
+	"os"
 	"os/exec"
 	"strings"
 	"time"
@@ -21,6 +22,7 @@ type Solver struct {
 	scopes    []scopeRec
 	lines     [][]string // asserted/declared lines per scope level (for self-contained dumps)
 	timeoutMs int
+	oneShot   bool // every query is sent as a fresh script after (reset): z3 then uses its tactic pipeline, not the incremental core
 
 	queries, nsat, nunsat, nunknown int
 	dur                             time.Duration
@@ -42,7 +44,7 @@ type querySample struct {
 }
 
 func NewSolver(bin []string, timeoutMs int) *Solver {
-	s := &Solver{bin: bin, timeoutMs: timeoutMs}
+	s := &Solver{bin: bin, timeoutMs: timeoutMs, oneShot: os.Getenv("VERIF_INCREMENTAL") == ""}
 	s.start()
 	return s
 }
@@ -79,7 +81,9 @@ func (s *Solver) resetState() {
 func (s *Solver) raw(l string) { io.WriteString(s.in, l+"\n") }
 
 func (s *Solver) send(l string) {
-	s.raw(l)
+	if !s.oneShot {
+		s.raw(l)
+	}
 	s.lines[len(s.lines)-1] = append(s.lines[len(s.lines)-1], l)
 }
 
@@ -115,19 +119,25 @@ func (s *Solver) readSexp() string {
 }
 
 func (s *Solver) Reset() {
-	s.raw("(reset)")
-	s.raw(fmt.Sprintf("(set-option :timeout %d)", s.timeoutMs))
+	if !s.oneShot {
+		s.raw("(reset)")
+		s.raw(fmt.Sprintf("(set-option :timeout %d)", s.timeoutMs))
+	}
 	s.resetState()
 }
 
 func (s *Solver) Push() {
-	s.raw("(push 1)")
+	if !s.oneShot {
+		s.raw("(push 1)")
+	}
 	s.scopes = append(s.scopes, scopeRec{})
 	s.lines = append(s.lines, []string{})
 }
 
 func (s *Solver) Pop() {
-	s.raw("(pop 1)")
+	if !s.oneShot {
+		s.raw("(pop 1)")
+	}
 	sc := s.scopes[len(s.scopes)-1]
 	s.scopes = s.scopes[:len(s.scopes)-1]
 	for _, n := range sc.declared {
@@ -221,7 +231,21 @@ func (s *Solver) Check(extra *Term, vars []*Term) (string, map[string]uint64) {
 	for _, v := range vars {
 		s.declareVar(v)
 	}
-	s.raw("(check-sat)")
+	if s.oneShot {
+		var sb strings.Builder
+		sb.WriteString("(reset)\n")
+		fmt.Fprintf(&sb, "(set-option :timeout %d)\n", s.timeoutMs)
+		for _, lv := range s.lines {
+			for _, l := range lv {
+				sb.WriteString(l)
+				sb.WriteByte('\n')
+			}
+		}
+		sb.WriteString("(check-sat)")
+		s.raw(sb.String())
+	} else {
+		s.raw("(check-sat)")
+	}
 	r := s.readLine()
 	for strings.HasPrefix(r, "(error") || strings.HasPrefix(r, "unsupported") {
 		s.errs = append(s.errs, r)
@@ -247,6 +271,12 @@ func (s *Solver) Check(extra *Term, vars []*Term) (string, map[string]uint64) {
 	}
 	s.Pop()
 	d := time.Since(t0)
+	if dir := os.Getenv("VERIF_DUMP_SLOW"); dir != "" && d > 3*time.Second {
+		s.Push()
+		s.Assert(extra)
+		os.WriteFile(fmt.Sprintf("%s/slow-%d-%d-%s.smt2", dir, os.Getpid(), s.queries, r), []byte(s.script()), 0o644)
+		s.Pop()
+	}
 	s.dur += d
 	if d > s.slowest {
 		s.slowest = d
